@@ -102,3 +102,11 @@ _add("C05", text=" TRSO line 2 is held to its definition (the CURRENT domain's d
 _add("C07", text=" Integer recursion counters are left free in the comparison: a step that depends on the depth of the recursion is a deviation.")
 _add("C08", text=" Integer recursion counters are left free in the comparison.")
 _add("C13", text=" A path of Sum.simplify that returns the constant Zero() is refuted (R13.3).")
+# round 6
+_add("C18", method="; def-use of the merged pair (R18.6): the names handed to the event renaming are bound, at every binding, to positions 1 and 2 of what the merge routine returned",
+     text=" The event is renamed with the pair the merge returned (R18.6): which copy survives in the graph is the merge's decision, and the event follows it.")
+_add("C13", method="; small-domain folding of key components computed from the three-valued `star` field (E11 K2: one-to-one on {None, False, True}, on {False, True} for subscripts)",
+     text=" Sum.simplify's no-capture test is held to its definition (ONE subscript of ONE counterfactual child is enough); the lookup of children by base variable happens only on paths that look at how often a base occurs (R13.3 one-to-one lookup -- the repaired defect of joints like P(C @ A, C @ B)).")
+_add("C11", method="; small-domain folding of key components computed from the three-valued `star` field (one-to-one on {None, False, True})",
+     text=" A sort-key component computed from `star` alone distinguishes a variable from its values and the two values from each other.")
+_add("C10", text=" Inherits R13.3's no-capture definition and one-to-one lookup clause for Sum.simplify, which canonicalize runs on every Sum.")
